@@ -361,3 +361,68 @@ ASSUMPTIONS = {'C02': [
     '(bc, tr, mnemonic, list of floats) is the precondition of the chain',
 ]}
 TRUSTED = {'C02': ['MIP.mip.surfacecard.split (regex)', 'MIP.geom.surfaces.get_surfaces (float parsing)']}
+
+
+# ------------------------------------------------------------------ SurfaceCollection.join / CollectionDict.number_items
+
+from t4_geom_convert.Kernel.Surface.SurfaceCollection import SurfaceCollection
+from t4_geom_convert.Kernel.Surface.CollectionDict import CollectionDict
+from t4_geom_convert.Kernel.Surface.SurfaceT4 import SurfaceT4
+from t4_geom_convert.Kernel.Surface.ESurfaceTypeT4 import ESurfaceTypeT4 as T4S
+import itertools as _it
+
+
+@contract(SurfaceCollection.join, props=['C02', 'C03'], name='SurfaceCollection.join')
+class _Join:
+    """The joined collection lists the sub-surfaces of every part in order, each with its own side multiplied by the
+    side of the part (so that "negative sense = every signed sub-surface negative" is preserved)."""
+    def cases(S):
+        for sizes in ((1,), (2,), (1, 1), (2, 1), (1, 2, 1)):
+            parts = []
+            for k, n in enumerate(sizes):
+                surfs = [(SurfaceT4(T4S.PLANE, S.reals([f'p{k}{i}{j}' for j in range(4)])), (1, -1)[(i + k) % 2])
+                         for i in range(n)]
+                parts.append((SurfaceCollection(surfs), (1, -1, 1)[k]))
+            yield f'parts={sizes}', {'surf_colls': parts}
+
+    def call(surf_colls):
+        return SurfaceCollection.join(surf_colls)
+
+    def ensures(result, surf_colls):
+        want = [(s_, sub * side) for coll, side in surf_colls for s_, sub in coll.surfs]
+        yield 'in-order-with-multiplied-sides', len(result.surfs) == len(want) and all(
+            a[0] is b[0] and a[1] == b[1] for a, b in zip(result.surfs, want))
+
+
+@contract(CollectionDict.number_items, props=['C02', 'C03', 'C08', 'C16'], name='CollectionDict.number_items', status='B')
+class _NumberItems:
+    """Every sub-surface gets its own number: the first sub-surface of a key keeps the key (the MCNP number, which is
+    what boundary conditions designate), the others get fresh numbers above every key, pairwise different;
+    matching[key][i] == side_i * number_i and numbering[number_i] is that sub-surface."""
+    scope = 'dictionaries of 1..3 keys from {3, 7, 12} holding 1..3 sub-surfaces each, every side pattern'
+
+    def bounded(tier):
+        for keys in ([3], [7, 3], [3, 12, 7]):
+            for sizes in _it.product((1, 2, 3), repeat=len(keys)):
+                for flip in (0, 1):
+                    yield {'keys': keys, 'sizes': sizes, 'flip': flip}
+
+    def call(keys, sizes, flip):
+        d = CollectionDict()
+        objs = {}
+        for k, n in zip(keys, sizes):
+            objs[k] = [(object(), (1, -1)[(i + flip) % 2]) for i in range(n)]
+            d[k] = list(objs[k])
+        numbering, matching = d.number_items()
+        return numbering, matching, objs
+
+    def ensures(result, keys, sizes, flip):
+        numbering, matching, objs = result
+        ids = [abs(i) for k in keys for i in matching[k]]
+        yield 'numbers-pairwise-different', len(set(ids)) == len(ids)
+        yield 'first-sub-surface-keeps-the-key', all(abs(matching[k][0]) == k for k in keys)
+        yield 'other-numbers-are-fresh', all(abs(i) > max(keys) for k in keys for i in matching[k][1:])
+        yield 'signed-by-side-and-numbered', all(
+            (i > 0) == (side > 0) and numbering[abs(i)] is obj
+            for k in keys for i, (obj, side) in zip(matching[k], objs[k]))
+        yield 'nothing-else-numbered', set(numbering) == set(ids)
